@@ -281,8 +281,25 @@ def _by_angle(ctx, prog):
                             n[0].args[0] == "numpy.pi" for n in ns)
             first_conv = [e for e in r.of_kind("call")
                           if e.data.get("name") == "numpy.deg2rad"]
-            okb = lo_ok and hi_ok and all(c.idx > raises[0].idx
-                                          for c in first_conv)
+            # either bound alone triggers the refusal
+
+            def only(which: str):
+                def env(t):
+                    n = norm_cmp(t) if t.op == "cmp" else None
+                    if n is None:
+                        return None
+                    is_lo = n[0] is DELTA and n[1] == "Lt"
+                    is_hi = n[2] is DELTA and n[1] == "Lt"
+                    if is_lo:
+                        return which == "lo"
+                    if is_hi:
+                        return which == "hi"
+                    return None
+                return tm.fold(raises[0].live, env)
+            each = only("lo") is True and only("hi") is True and \
+                only("none") is False
+            okb = lo_ok and hi_ok and each and all(
+                c.idx > raises[0].idx for c in first_conv)
         ctx.ob("C10.7", f, okb,
                f"[degrees={deg}] delta outside [0, "
                f"{'180' if deg else 'pi'}] raises before any conversion"
@@ -388,11 +405,11 @@ def _by_angle(ctx, prog):
                 d, t = conv(DELTA), conv(TOL)
                 lo = T("binop", "Sub", d, t)
                 hi_ = T("binop", "Add", d, t)
-                okm = all(ns) and {(n[0] is lo, n[1], n[2] is hi_)
-                                   for n in ns} == \
+                okm = bool(all(ns)) and {(n[0] is lo, n[1], n[2] is hi_)
+                                         for n in ns} == \
                     {(True, "LtE", False), (False, "LtE", True)} and \
-                    ns[0][2] is ns[1][0] if ns[0][0] is lo else \
-                    ns[1][2] is ns[0][0]
+                    (ns[0][2] is ns[1][0] if ns[0][0] is lo else
+                     ns[1][2] is ns[0][0])
         ctx.ob("C10.3", exts[0], okm,
                f"[degrees={deg}] angle/all-pairs: delta - tol <= angle <= "
                f"delta + tol, both inclusive, delta and tol converted alike"
